@@ -8,8 +8,8 @@ from typing import Protocol
 
 import falcon.testing as ft
 
-from drivers._data_util import faithful_counterexample, judge_dedup
-from vf import table, world
+from drivers._data_util import enumerate_cases, faithful_counterexample, judge_dedup
+from vf import world
 from vf.core import Ctx
 from vf.tlc import Raw
 
@@ -18,12 +18,14 @@ META = {
     "text": "ProofTable.tla transcribes section 6 of docs/proxy-proof-spec.md as a total function over field-level "
             "faults (header absent/empty/multi-instance/over-long, field count, version, charset of each of the four "
             "fields, kid known (two configured kids = rotation overlap) / unknown, clock at skew-1/skew/skew+1 on "
-            "both sides, six MAC relations, five nonce histories).  TLC enumerates EVERY combination (all orders of "
-            "simultaneous failures; 239,402 cases thorough) with the reason of the first failing step and checks "
-            "seven table-sanity invariants; each case is concretised into real HMAC-keyed headers (several "
-            "mutations per fault, exact 512/513-byte boundaries) and run through verify_proof (injected clock and "
-            "NonceCache clock), through the require-mode proxy_proof_gate on a real falcon.Request, and (subset) "
-            "through the full WSGI app for the 401; TLC judges every observation with ProofTable!Conforms.",
+            "both sides, six MAC relations, five nonce histories).  TLC enumerates every combination of structural "
+            "faults (steps 2-4) x every combination of later-step failures (steps 5-9), plus the full semantic product "
+            "for structurally clean headers (9,728 cases quick; thorough: the complete product, 239,402 cases), with the reason of the first failing "
+            "step, checks eight table-sanity invariants and refutes the faithful variant (Dev_GateEmptyIsAbsent).  Each "
+            "case is concretised into real HMAC-keyed headers (several mutations per fault, exact 512/513-byte "
+            "boundaries) and run through verify_proof (injected clock and NonceCache clock), through the require-mode "
+            "proxy_proof_gate on a real falcon.Request, and (subset) through the full WSGI app for the 401; TLC judges "
+            "every observation with ProofTable!Conforms.",
     "note": "Trusted: the transcription of the nine-step table; the harness's own HMAC/canonical-string "
             "implementation of spec section 4 (independent of vgi_rpc); the per-fault mutation lists.  Set-valued "
             "rows: non-canonical base64 trailing bits in the MAC ({ok,bad_mac}); nonce re-presented exactly `skew` "
@@ -282,11 +284,11 @@ def run(ctx: Ctx) -> None:
         consts = {**full, "ShKids": Raw('{"k1","unk"}'), "ShAges": Raw('{"zero","gtP","gtN"}'),
                   "ShMacs": Raw('{"ok","key"}'), "ShNonces": Raw('{"fresh","seen_in"}')}
     else:
-        consts = {**full, "ShKids": Raw('{"k1","k2","unk"}'), "ShAges": Raw('{"gtP","eqP","zero","eqN","gtN"}'),
-                  "ShMacs": Raw('{"ok","key","tamper","noncanon"}'), "ShNonces": Raw('{"fresh","seen_in","seen_rej"}')}
+        consts = {**full, "ShKids": Raw('{"k1","k2","unk"}'), "ShAges": full["Ages"], "ShMacs": full["MacKinds"],
+                  "ShNonces": full["NonceKinds"]}        # the complete product: 239,402 cases
     invs = ["Total", "Deterministic", "AcceptOnlyClean", "CleanAccepted", "FirstStepWins", "CheapFirst", "WindowTwoSided",
             "GateFollowsTable"]
-    cases = table.enumerate_cases(ctx, "data", "ProofTable", constants=consts, invariants=invs)
+    cases = enumerate_cases(ctx, "data", "ProofTable", constants=consts, invariants=invs)
     # faithful variant (named deviation on): TLC itself must refute GateFollowsTable; the case it returns (hdr = "empty")
     # is in Cases and is executed below like every other case
     cex = faithful_counterexample(ctx, "data", "ProofTable", constants={**consts, "Dev_GateEmptyIsAbsent": True},
@@ -481,7 +483,11 @@ def run(ctx: Ctx) -> None:
     for r in records[:: max(1, len(records) // 5)][:5]:
         ctx.sample({"abstract_case": r["case"], "concrete": {"tokens": r["_tok"], "now": r["_now"], "skew": r["_skew"]},
                     "observed": r["obs"]})
-    bad = judge_dedup(ctx, "data", "ProofTable", records, constants=consts)
+    # Admissible/Conforms do not depend on the case-space constants; the judge runs get the smallest admissible ones
+    jconsts = {"Ages": Raw('{"zero","gtP","gtN"}'), "MacKinds": Raw('{"ok","key"}'), "NonceKinds": Raw('{"fresh","seen_in"}'),
+               "ShKids": Raw('{"k1","unk"}'), "ShAges": Raw('{"zero","gtP","gtN"}'), "ShMacs": Raw('{"ok","key"}'),
+               "ShNonces": Raw('{"fresh","seen_in"}'), "Dev_GateEmptyIsAbsent": False}
+    bad = judge_dedup(ctx, "data", "ProofTable", records, constants=jconsts, chunk=40000)
     for idx, clauses in bad:
         r = records[idx]
         c, o = r["case"], r["obs"]
